@@ -734,44 +734,48 @@ func (check) Run(seed int64, tier string, idx int, verbose bool) harness.Result 
 			if when != "" {
 				sfx = ":" + when
 			}
-			// the parent link of every node of the destination stays inside
-			// the destination (never names a config of a source)
-			for _, n := range fd.walk {
-				if n.Parent > 1 {
-					if sw, ok := fs.addrs[n.Parent]; ok {
-						fail("destination-node-parented-in-source"+sfx, "destination node %q has the source's node %q (%#x) as its parent", n.Walk, sw, n.Parent)
-						return false
-					}
-				}
-			}
-			for i, x := range extras {
-				fx := fingerprintOf(x)
-				if dw, xw, a, found := aliased(fd, fx); found {
-					sig := "aliasing:collector-source"
-					if dw == "(fields)" {
-						sig += ":root-fields-table"
-					}
-					fail(sig+sfx, "destination node %q and node %q of extra source %d are the same object (%#x)", dw, xw, i, a)
-					return false
-				}
+			parented := func(in fp, what, q string) bool {
+				// the parent link of every node of the destination stays inside
+				// the destination (never names a config of a source)
 				for _, n := range fd.walk {
 					if n.Parent > 1 {
-						if xw, ok := fx.addrs[n.Parent]; ok {
-							fail("destination-node-parented-in-source:collector-source"+sfx, "destination node %q has node %q (%#x) of extra source %d as its parent", n.Walk, xw, n.Parent, i)
-							return false
+						if sw, ok := in.addrs[n.Parent]; ok {
+							sig := "destination-node-parented-in-source"
+							if n.Walk == "" {
+								sig = "destination-root-parented-in-source"
+							}
+							fail(sig+q+sfx, "destination node %q has node %q (%#x) of %s as its parent", n.Walk, sw, n.Parent, what)
+							return true
 						}
 					}
 				}
+				return false
 			}
 			dw, sw, a, found := aliased(fd, fs)
 			if !found {
+				fxs := make([]fp, len(extras))
+				for i, x := range extras {
+					fxs[i] = fingerprintOf(x)
+					if dw, xw, a, found := aliased(fd, fxs[i]); found {
+						sig := "aliasing:collector-source"
+						if dw == "(fields)" {
+							sig += ":root-fields-table"
+						}
+						fail(sig+sfx, "destination node %q and node %q of extra source %d are the same object (%#x)", dw, xw, i, a)
+						return false
+					}
+				}
+				if parented(fs, "the source", "") {
+					return false
+				}
+				for i := range extras {
+					if parented(fxs[i], fmt.Sprintf("extra source %d", i), ":collector-source") {
+						return false
+					}
+				}
 				for i, h := range dstHandles {
 					if hw, sw, a, found := aliased(fingerprintOf(h), fs); found {
-						sig := "aliasing:destination-child-handle-taken-before-merge"
-						if when != "" {
-							sig += ":" + when
-						}
-						fail(sig, "node %q below handle h%d of the destination and source node %q are the same object (%#x)", hw, i, sw, a)
+						fail("aliasing:destination-child-handle-taken-before-merge"+sfx, "node %q below handle h%d of the destination and source node %q are the same object (%#x)", hw, i, sw, a)
 						return false
 					}
 				}
